@@ -234,7 +234,11 @@ class Outcome:
 
     def oracle_fail(self, stream, inp, what, finding=None, detail=None):
         self.count("oracle_fail:" + (finding or "NEW") + ":" + stream)
-        if len(self.oracle_failures) < 200:
+        # keep every class of failure visible: cap per finding id (known findings must never crowd out new failures)
+        self._kept = getattr(self, "_kept", {})
+        k = finding or "NEW"
+        self._kept[k] = self._kept.get(k, 0) + 1
+        if self._kept[k] <= (200 if finding is None else 5):
             self.oracle_failures.append({"stream": stream, "input": inp, "what": what, "finding": finding, "detail": detail})
 
 
